@@ -190,6 +190,102 @@ def inject_loop_contracts(body, contracts, nloops):
     return body
 
 
+_LAMBDA = re.compile(r'\bauto\s+(\w+)\s*=\s*\[&\]\s*\(([^()]*)\)\s*(?:->\s*void\s*)?\{')
+
+
+def _split_top(s):
+    out, depth, cur = [], 0, ''
+    for ch in s:
+        if ch in '([{<':
+            depth += 1
+        elif ch in ')]}>':
+            depth -= 1
+        if ch == ',' and depth == 0:
+            out.append(cur)
+            cur = ''
+        else:
+            cur += ch
+    if cur.strip():
+        out.append(cur)
+    return [x.strip() for x in out]
+
+
+def inline_lambdas(text):
+    """Local by-reference void lambdas are expanded at their call statements (C has no closures):
+
+        auto NAME = [&](T1 p1, T2 p2) [-> void] { BODY };   ...   NAME(a1, a2);
+    becomes                                                ...   { T1 p1 = (a1); T2 p2 = (a2); BODY }
+
+    Done only when that is meaning-preserving by construction: capture list exactly [&]; value parameters; BODY has no
+    `return` and does not mention NAME; every other occurrence of NAME up to the end of the enclosing block is a full
+    call statement `NAME(args);` with as many arguments as parameters; no argument mentions a parameter name.  A lambda
+    that does not qualify is left alone (and then stops the extraction of a function that contains it as C++ residue).
+    Assumption (DESIGN.md): no declaration between the lambda and a call re-declares a name the body uses."""
+    start = 0
+    while True:
+        m = mask(text)
+        mo = _LAMBDA.search(m, start)
+        if not mo:
+            return text
+        start = mo.end()
+        new = _inline_one(text, m, mo)
+        if new is not None:
+            text = new
+            start = mo.start()
+
+
+def _inline_one(text, m, mo):
+    ob = mo.end() - 1
+    cb = match_close(m, ob)
+    mt = re.match(r'\s*;', m[cb + 1:])
+    if not mt:
+        return None
+    name = mo.group(1)
+    params = _split_top(text[mo.start(2):mo.end(2)])
+    pnames = []
+    for prm in params:
+        pm = re.match(r'^(.*?)(\w+)$', prm, re.S)
+        if not pm or '&' in pm.group(1):
+            return None
+        pnames.append(pm.group(2))
+    body = text[ob + 1:cb]
+    mbody = m[ob + 1:cb]
+    if re.search(r'\breturn\b', mbody) or re.search(r'\b%s\b' % name, mbody):
+        return None
+    depth, end = 0, len(text)          # enclosing block = up to the unmatched '}' after the definition
+    for j in range(cb + 1, len(m)):
+        if m[j] == '{':
+            depth += 1
+        elif m[j] == '}':
+            if depth == 0:
+                end = j
+                break
+            depth -= 1
+    defn_end = cb + 1 + mt.end()
+    scope, mscope = text[defn_end:end], m[defn_end:end]
+    out, pos = [], 0
+    for um in re.finditer(r'\b%s\b' % name, mscope):
+        call = re.match(r'%s\s*\(' % name, mscope[um.start():])
+        pre = mscope[:um.start()].rstrip()
+        if not call or (pre and pre[-1] not in ';{}' and not re.search(r'(\belse|\))$', pre)):
+            return None
+        op = um.start() + call.end() - 1
+        cp = match_close(mscope, op)
+        semi = re.match(r'\s*;', mscope[cp + 1:])
+        if not semi:
+            return None
+        args = _split_top(scope[op + 1:cp])
+        if len(args) != len(params) or any(re.search(r'\b%s\b' % pn, a) for pn in pnames for a in args):
+            return None
+        binds = ' '.join('%s = (%s);' % (prm, a) for prm, a in zip(params, args))
+        out.append(scope[pos:um.start()])
+        out.append('{ %s %s }' % (binds, body))
+        pos = cp + 1 + semi.end()
+    out.append(scope[pos:])
+    nl = text[mo.start():defn_end].count('\n')
+    return text[:mo.start()] + '\n' * nl + ''.join(out) + text[end:]
+
+
 def rewrite_casts(text):
     """static_cast<T>(e) / reinterpret_cast<T>(e) / const_cast<T>(e)  ->  ((T)(e))."""
     while True:
